@@ -996,9 +996,12 @@ class _AsyncDequeueIterator:
 
 def _get_thread_pool(
     thread_pool: futures.ThreadPoolExecutor | None = None,
+    max_workers: int | None = None,
 ) -> futures.ThreadPoolExecutor:
   if thread_pool is None:
-    thread_pool = futures.ThreadPoolExecutor(thread_name_prefix='piter')
+    thread_pool = futures.ThreadPoolExecutor(
+        max_workers=max_workers, thread_name_prefix='piter'
+    )
   return thread_pool
 
 
@@ -1115,7 +1118,11 @@ def piter(
     # The input_queue uses a max_batch_size of 1 to ensure that the output_queue
     # is not consuming too many elements that leads to imbalanced parallelism.
     max_batch_size = 1 if max_parallism > 1 and iterator_fn is not None else 0
-    thread_pool = _get_thread_pool(thread_pool)
+    # Every input enqueuer occupies a thread until its input is drained, the
+    # workers draining them need threads of the same pool.
+    thread_pool = _get_thread_pool(
+        thread_pool, max_workers=len(input_iterators) + max(max_parallism, 1)
+    )
     input_iterable = piter_multiplex(
         input_iterators,
         thread_pool=thread_pool,
